@@ -194,7 +194,8 @@ func runC17(r *mon.Run) {
 				secp256k1.VerifInstrReset()
 				f1()
 				d = c17Diff(base2)
-				debug.SetGCPercent(400)
+				debug.SetGCPercent(c17GCPercent)
+				GCStormPaused.Store(false)
 				if d == "" {
 					w.Class("c17:difference-not-reproduced-with-finalizers-drained-and-collector-off")
 					if base.nonzero == b.base.nonzero && len(buckets) == 1 {
@@ -239,6 +240,8 @@ func runC17(r *mon.Run) {
 	_ = os.Getenv
 }
 
+var c17GCPercent = 400
+
 type c17Sentinel struct {
 	p   *int
 	pad [48]byte
@@ -254,7 +257,10 @@ func c17PlantSentinel(done chan struct{}) {
 // switched off (the caller switches it on again): a full collection queues what is due, a sentinel
 // planted afterwards is finalized by the next collection, behind everything queued before it.
 func c17Quiesce() {
-	debug.SetGCPercent(-1)
+	GCStormPaused.Store(true)
+	if p := debug.SetGCPercent(-1); p >= 0 {
+		c17GCPercent = p
+	}
 	runtime.GC()
 	done := make(chan struct{})
 	c17PlantSentinel(done)
